@@ -234,7 +234,17 @@ func GenConfig(r *rng.R, o Opts) Config {
 		var root string
 		for try := 0; ; try++ {
 			rootToks = genToks(r, o, r.Intn(3), &names, true)
-			if si > 0 && o.RootVars && try < 5 && r.Chance(1, 3) {
+			if si > 0 && try < 5 && r.Chance(1, 4) {
+				// a root nested in or around an earlier one (/a, /a/b, /a/b/c in any registration order): the
+				// longest matching root must win whatever came first
+				prev := cfg.Services[r.Intn(len(cfg.Services))].RootToks
+				switch {
+				case len(prev) > 0 && r.Chance(1, 2):
+					rootToks = append([]Tok{}, prev[:len(prev)-1]...)
+				default:
+					rootToks = append(append([]Tok{}, prev...), Tok{Kind: "lit", Lit: r.Pick(Lits[:8])})
+				}
+			} else if si > 0 && o.RootVars && try < 5 && r.Chance(1, 3) {
 				// a twist of an earlier root: same length, literal and variable positions flipped here and
 				// there (LV next to VL, LVV / VLV / VVL …): roots of different shape that claim the same URLs
 				prev := cfg.Services[r.Intn(len(cfg.Services))].RootToks
